@@ -5,10 +5,13 @@ use serde_json::Value;
 pub mod c01;
 pub mod c02;
 pub mod c03;
+pub mod c05;
+pub mod c09;
 pub mod c10;
 pub mod c11;
 pub mod c12;
 pub mod c13;
+pub mod c15;
 pub mod c16;
 pub mod c17;
 pub mod c19;
@@ -24,10 +27,13 @@ pub const PROPS: &[Prop] = &[
     Prop { id: "C01", level: "exploration", run: c01::run, replay: c01::replay },
     Prop { id: "C02", level: "exploration", run: c02::run, replay: c02::replay },
     Prop { id: "C03", level: "exploration", run: c03::run, replay: c03::replay },
+    Prop { id: "C05", level: "exploration", run: c05::run, replay: c05::replay },
+    Prop { id: "C09", level: "exploration", run: c09::run, replay: c09::replay },
     Prop { id: "C10", level: "exploration", run: c10::run, replay: c10::replay },
     Prop { id: "C11", level: "exploration", run: c11::run, replay: c11::replay },
     Prop { id: "C12", level: "exploration", run: c12::run, replay: c12::replay },
     Prop { id: "C13", level: "exploration", run: c13::run, replay: c13::replay },
+    Prop { id: "C15", level: "fault_enumeration", run: c15::run, replay: c15::replay },
     Prop { id: "C16", level: "fault_enumeration", run: c16::run, replay: c16::replay },
     Prop { id: "C17", level: "exploration", run: c17::run, replay: c17::replay },
     Prop { id: "C19", level: "exploration", run: c19::run, replay: c19::replay },
